@@ -929,7 +929,7 @@ func (c *Ctx) execMapUpdate(fr *Frame, x *ssa.MapUpdate, st *State, reach string
 		c.oblige("FRAME", "FRAME.scope", x.Pos(), reach, c.storeAllowed(m), "assignment to a variable: only this function's own scope (its env parameter) or a scope created here may be written")
 	}
 	c.lockCheck(fr, x.Map, st, reach, x.Pos(), true)
-	c.wfStore(reach, x.Pos(), v, mt.Elem(), st, "map entry")
+	c.wfMapStore(reach, x.Pos(), v, mt, st)
 	hn, hs, vn, vs, _, _ := c.mapArrays(mt, st)
 	h := c.arr(st, hn, hs)
 	va := c.arr(st, vn, vs)
@@ -966,7 +966,7 @@ func (c *Ctx) execLookup(fr *Frame, x *ssa.Lookup, st *State, reach string) {
 	val := c.define(x.Name()+"_v", c.sorts.Of(mt.Elem()), ite(has, fmt.Sprintf("(select (select %s %s) %s)", va, mm, k), c.sorts.Zero(mt.Elem())))
 	vv := Val{T: val, Typ: mt.Elem()}
 	c.assume(reach, implies(has, c.typeFact(val, mt.Elem(), st, 1)))
-	c.wfRead(and(reach, has), val, mt.Elem(), st)
+	c.wfMapRead(and(reach, has), val, mt, st)
 	if x.CommaOk {
 		fr.vals[x] = Val{Tup: []Val{vv, {T: has, Typ: types.Typ[types.Bool]}}, Typ: x.Type()}
 	} else {
@@ -994,8 +994,8 @@ func (c *Ctx) finalGlobal(g *ssa.Global, st *State) Val {
 		if _, isPtr := elem.Underlying().(*types.Pointer); (isPtr || isMapT) && c.w.isRepoPkg(g.Pkg.Pkg.Path()) {
 			c.lines = append(c.lines, "(assert (not (= "+name+" 0)))")
 			ts := types.TypeString(elem, nil)
-			for other, ot := range c.gvTypes {
-				if ot == ts {
+			for _, other := range sortedKeys(c.gvTypes) {
+				if c.gvTypes[other] == ts {
 					c.lines = append(c.lines, "(assert (not (= "+name+" "+other+")))")
 				}
 			}
